@@ -61,6 +61,11 @@ func KeygenTaproot(selfID party.ID, participants []party.ID, threshold int) prot
 
 // Refresh
 func Refresh(config *Config, participants []party.ID) protocol.StartFunc {
+	if err := config.Validate(); err != nil {
+		return func([]byte) (round.Session, error) {
+			return nil, fmt.Errorf("frost.Refresh: %w", err)
+		}
+	}
 	return keygen.StartKeygenCommon(false, config.Curve(), participants, config.Threshold, config.ID, config.PrivateShare, config.PublicKey, config.VerificationShares.Points)
 }
 
@@ -70,6 +75,11 @@ func Refresh(config *Config, participants []party.ID) protocol.StartFunc {
 //
 // See: https://github.com/bitcoin/bips/blob/master/bip-0340.mediawiki#specification
 func RefreshTaproot(config *TaprootConfig, participants []party.ID) protocol.StartFunc {
+	if err := config.Validate(); err != nil {
+		return func([]byte) (round.Session, error) {
+			return nil, fmt.Errorf("frost.RefreshTaproot: %w", err)
+		}
+	}
 	publicKey, err := curve.Secp256k1{}.LiftX(config.PublicKey)
 	if err != nil {
 		return func([]byte) (round.Session, error) {
